@@ -6,10 +6,13 @@ wt=$1; id=$2
 cd $wt || exit 2
 export CARGO_TARGET_DIR=$wt/target CARGO_NET_OFFLINE=true
 git checkout -q -- . 
+git checkout -q --detach $(git -C /repo rev-parse HEAD)
+mkdir -p MUTANT/tmp_demo_tests; mv bigtools/tests/demo_*.rs MUTANT/tmp_demo_tests/ 2>/dev/null
 git apply --check MUTANT/patch.diff || { echo "patch does not apply"; exit 1; }
 git apply MUTANT/patch.diff
 suite=$(cargo test --workspace --no-fail-fast --offline -j 6 2>&1 | grep -E '^test result' )
 suite_fail=$(echo "$suite" | grep -c 'FAILED')
+mv MUTANT/tmp_demo_tests/*.rs bigtools/tests/ 2>/dev/null
 bash MUTANT/demo/run.sh > MUTANT/demo_with.log 2>&1; with=$?
 git checkout -q -- .
 bash MUTANT/demo/run.sh > MUTANT/demo_without.log 2>&1; without=$?
